@@ -27,7 +27,7 @@ __CPROVER_ensures(__CPROVER_return_value >= 0 && __CPROVER_return_value <= x)
 """
 
 RESULT_INIT = Rule(r"Interaction result;", "Interaction result = {0, 0, {0, 0}, 0, IA_scattered};", 1, note="default member initializers (Quantity value_{} = 0, Span {}, energy_deposition{0}, action{scattered})")
-VALUE_AS = Rule(r"value_as<\w+>\(", "(", "*", note="value_as<Q>(q) -> the real_type itself")
+VALUE_AS = Rule(r"value_as<[\w:]+>\(", "(", "*", note="value_as<Q>(q) -> the real_type itself")
 NULLPTR = Rule(r"\bnullptr\b", "0", "*", note="nullptr")
 
 
@@ -510,4 +510,88 @@ UNITS = [
          must_have=[r"EGG_call.postcondition", r"ALLOC_call.precondition", r"FMUL_frac.precondition"], checks=["--bounds-check", "--pointer-check"],
          assumptions=["rejection loop result epsil in (0,1] (assumed; draw count not decided)", "IEEE lemma 0 <= E*eps <= E (assumed)", "directions not verified", "StackAllocator contract (enforced in c16_alloc)"],
          note="EPlusGGInteractor::operator(): clean failure; positron absorbed, two gammas; at rest m c^2 each, in flight k1 + k2 = T + 2 m c^2 term by term, both >= 0; only slots 0,1 written"),
+]
+
+
+# ---- neutron elastic (CHIPS) -----------------------------------------------------
+NE = "src/celeritas/neutron/interactor/ChipsNeutronElasticInteractor.hh"
+NE_MODEL = """
+/* exact-integer abstraction of real_type (VERIF_REAL_AS_INT): additions and subtractions are exact and associative, so ANY algebraically equivalent way of forming the
+   two kinetic energies satisfies the ledger below; products, quotients, sqrt, the boost and the rotations are uninterpreted / havoc (their values are not decided). */
+typedef struct { Real3 mom; real_type energy; } FourVector;
+typedef struct { Real3 inc_direction_; real_type target_mass; real_type neutron_mass_, neutron_energy_, neutron_p_; } ChipsNeutronElasticInteractor;
+long __CPROVER_uninterpreted_mul_l(long, long);
+long __CPROVER_uninterpreted_div_l(long, long);
+long __CPROVER_uninterpreted_sqrt_l(long);
+long __CPROVER_uninterpreted_sq_l(long);
+#define MUL(a, b) __CPROVER_uninterpreted_mul_l((a), (b))
+#define FDIV(a, b) __CPROVER_uninterpreted_div_l((a), (b))
+FourVector g_out;       /* ghost: the scattered neutron's four-momentum in the lab frame (result of the boost: any value with energy >= rest mass and <= the total energy) */
+real_type NE_sample_q2(ChipsNeutronElasticInteractor const* self, Engine* rng) __CPROVER_assigns(g_draws) __CPROVER_ensures(g_draws > __CPROVER_old(g_draws));
+real_type NE_sample_phi(ChipsNeutronElasticInteractor const* self, Engine* rng) __CPROVER_assigns(g_draws) __CPROVER_ensures(g_draws > __CPROVER_old(g_draws));
+Real3 NE_from_spherical(real_type costheta, real_type phi) __CPROVER_assigns() __CPROVER_ensures(1);
+Real3 NE_boost_vector(FourVector const* lv) __CPROVER_assigns() __CPROVER_ensures(1);
+/* boost(v, &p): Lorentz transformation of p (numerics not decided); the scattered neutron's lab energy lies between its rest mass and its incident total energy: it cannot gain energy from a target at rest (kinematics, assumed) */
+void NE_boost(Real3 v, FourVector* p, real_type mass, real_type total)   /* total: the neutron's incident total energy */
+__CPROVER_requires(p != 0)
+__CPROVER_assigns(*p, g_out)
+__CPROVER_ensures(p->energy >= mass && p->energy <= total && g_out.energy == p->energy)
+;
+Real3 NE_rotate_unit(Real3 mom, Real3 dir) __CPROVER_assigns() __CPROVER_ensures(1);
+"""
+NE_RULES = Q_RULES + [
+    VALUE_AS, RESULT_INIT,
+    Rule(r"target_\.nuclear_mass\(\)", "self->target_mass", 1, note="IsotopeView accessor -> field"),
+    Rule(r"std::sqrt\(", "__CPROVER_uninterpreted_sqrt_l(", "*", note="sqrt -> uninterpreted"),
+    Rule(r"ipow<2>\(", "__CPROVER_uninterpreted_sq_l(", "*", note="ipow<2> -> uninterpreted"),
+    Rule(r"real_type\(0\.5\)", "1", "*", note="constant factor folded into the uninterpreted product (value not decided)"),
+    Rule(r"sample_momentum_square_\(rng\)", "NE_sample_q2(self, rng)", 1, note="momentum-transfer sampler -> stub"),
+    Rule(r"sample_phi_\(rng\)", "NE_sample_phi(self, rng)", 1, note="azimuth sampler -> stub"),
+    Rule(r"CELER_ASSERT\(std::fabs\(cos_theta\) <= 1\);", "", 1, note="numeric assertion on the polar angle dropped: NOT decided"),
+    Rule(r"Real3 cm_mom = cm_p \* from_spherical\(([^;]*)\);", r"Real3 cm_mom = MUL(cm_p, NE_from_spherical(\1));", 1, note="scalar * vector -> uninterpreted"),
+    Rule(r"FourVector nlv1\(\s*\{cm_mom, ([^;]*)\}\);", r"FourVector nlv1 = {cm_mom, \1};", 1, note="aggregate construction"),
+    Rule(r"FourVector lv\(\{\{0, 0, \(?neutron_p_\)?\},\s*neutron_energy_ \+ target_mass\}\);", "FourVector lv = {neutron_p_, neutron_energy_ + target_mass};", 1, note="aggregate construction (momentum abstracted to its z component)"),
+    Rule(r"boost\(boost_vector\(lv\), &nlv1\);", "NE_boost(NE_boost_vector(&lv), &nlv1, neutron_mass_, neutron_energy_);", 1, note="Lorentz boost -> stub"),
+    Rule(r"rotate\(make_unit_vector\(nlv1\.mom\), inc_direction_\)", "NE_rotate_unit(nlv1.mom, inc_direction_)", 1, note="direction numerics -> stub"),
+    Rule(r"Energy\(([^()]*)\)", r"(\1)", "*", note="Quantity construction -> value"),
+    Rule(r"(\w[\w.]*) / ([\w.(][\w.()<>]*)", r"FDIV(\1, \2)", "*", note="quotients -> uninterpreted"),
+    Rule(r"(?<![\w.>])(neutron_mass_|neutron_energy_|neutron_p_|inc_direction_)\b", r"self->\1", "+", note="data members"),
+    Rule(r"Action::(\w+)", r"IA_\1", "*", note="enum"),
+    Rule(r"Interaction::IA_", "IA_", "*", note="enum scope"),
+]
+
+
+def build_neutron_elastic(ctx):
+    from units.c18 import ALGO as ALGO_HH
+    cn = ctx.func(ALGO_HH, r"CELER_CONSTEXPR_FUNCTION T clamp_to_nonneg\(T v\) noexcept", [], name="celeritas::clamp_to_nonneg")
+    pc = ctx.func(NE, r"CELER_FUNCTION Interaction ChipsNeutronElasticInteractor::operator\(\)\(Engine& rng\)", NE_RULES + [MulToUF_()], name="ChipsNeutronElasticInteractor::operator()")
+    return (HDR + INTERACTION_MODEL + NE_MODEL + "static real_type clamp_to_nonneg(real_type v)\n{" + cn.body + "}\n" + """
+Interaction NE_call(ChipsNeutronElasticInteractor const* self, Engine* rng)
+__CPROVER_requires(__CPROVER_r_ok(self, sizeof(*self)) && self->neutron_mass_ > 0 && self->neutron_mass_ <= 100000 && self->neutron_energy_ >= self->neutron_mass_ && self->neutron_energy_ <= 1000000 && self->target_mass > 0 && self->target_mass <= 1000000)
+__CPROVER_assigns(g_draws, g_out)
+/* elastic scattering: no secondaries, the neutron survives */
+__CPROVER_ensures(__CPROVER_return_value.action == IA_scattered && __CPROVER_return_value.secondaries.size == 0)
+/* ledger: incident kinetic energy (E_n - m_n) = outgoing kinetic energy + nuclear recoil deposited locally, both non-negative */
+__CPROVER_ensures(__CPROVER_return_value.energy >= 0 && __CPROVER_return_value.energy_deposition >= 0)
+__CPROVER_ensures(__CPROVER_return_value.energy + __CPROVER_return_value.energy_deposition == self->neutron_energy_ - self->neutron_mass_)
+{""" + pc.body + """}
+void h_ne(void)
+{
+    ChipsNeutronElasticInteractor m; Engine* e;
+    NE_call(&m, e);
+    VERIF_CANARY();
+}
+""")
+
+
+def MulToUF_():
+    from vkit.extract import MulToUF
+    return MulToUF()
+
+
+UNITS += [
+    Unit("c04_neutron_elastic", build_neutron_elastic, "h_ne", enforce="NE_call", replace=["NE_sample_q2", "NE_sample_phi", "NE_from_spherical", "NE_boost_vector", "NE_boost", "NE_rotate_unit"], timeout=300, backend=["sat", "cvc5", "z3"],
+         defines=["VERIF_REAL_AS_INT"], must_have=[r"NE_call.postcondition", r"celer_ensure"], checks=["--bounds-check", "--pointer-check", "--no-signed-overflow-check", "--no-div-by-zero-check"],
+         assumptions=["exact-integer abstraction of real_type (rounding of the sums not covered)", "the scattered neutron's lab energy lies between its rest mass and its incident total energy (kinematics of the Lorentz boost; numerics not decided)", "momentum, angles, directions not decided"],
+         note="ChipsNeutronElasticInteractor::operator(): no secondaries, scattered; T_in = T_out + recoil deposit with both >= 0, for ANY result of the boost (the deposit is what is left of the total energy)"),
 ]
